@@ -18,7 +18,7 @@ class H(Harness):
     RULE = ('random ScriptProcess tables whose handlers discard/add elements of loci (incl. the element itself and competitors), posted events '
             'that empty a locus before the stochastic event of the same instant, probabilities incl. 0 and 1, both dynamics; plus runs of '
             'the shipped models on stars and small dense networks under synchronous dynamics with probability 1 (several selected events '
-            'competing for one node); non-trivial = some handler changed a locus that has a registered event and at least 3 events fired')
+            'competing for one node), and SIR_VariableInfection extended by a posted removal of its seeds under Gillespie dynamics with low rates (a posted event empties the one-element locus of an infection already selected); non-trivial = some handler changed a locus that has a registered event and at least 3 events fired')
     TRUSTED = ['Coq 8.16.1 kernel incl. vm_compute', 'harness/kscript.py, harness/kcommon.py, harness/compart.py, vlib/oracle.py']
     ASSUMPTIONS = ['DrawSet.draw returns a member of the set it is called on (C09)']
 
@@ -33,6 +33,7 @@ class H(Harness):
             from harness import compart
             out += compart.c05_cases(rnd, max(20, n // 5))
             out += [compart.gen_case(rnd) for _ in range(max(20, n // 5))]
+            out += compart.vi_post_cases(rnd, max(20, n // 10))
         except ImportError:
             pass
         return out
